@@ -15,7 +15,9 @@ META = {
              "otherwise; compaction_anywhere: compactions inserted anywhere between the writing sessions of a history leave a file that "
              "loads to the replay of everything written; compaction_mid_session: the same at the granularity of single chronicler calls "
              "(Write/Sync/Close, locked compactions on an open writer that still buffers entries, offline compactions while no writer "
-             "is open) — both are clauses of Holds; classify_sound decides from the extracted facts (incl. the block-reader facts of "
+             "is open) — both are clauses of Holds; the facts lockedClosesWriterFirst, cliAbortsWhenStopFails (the CLI never compacts under a "
+             "running server) and wrappersDelegate (CompactIfNeeded / ForceCompact / CompactDirectory are Compactor.Compact on one file "
+             "or nothing) tie the entry points to the statements; classify_sound decides from the extracted facts (incl. the block-reader facts of "
              "C04 and the count-bound flush rule the model relies on).  The byte-level codec is a parameter (assumptions A1/A2 "
              "in Hv/Storage/Disk.lean), exercised by the correspondence run."),
     "note": ("Trusted: Lean kernel (propext, Classical.choice, Quot.sound); extract/c02.go+c03.go; harness/c02.go+c03.go (strace parser, "
